@@ -55,7 +55,8 @@ theorem scanOp_sim (s : FileSt) (orc : List Outcome) : absOf (scanOp s orc).1.st
     rw [if_pos hh, if_pos hh']
     rcases atomic_cases { st := s, orc := orc, logged := false }
         (fun y => { y with st := { y.st with tier := scanTier,
-                                             recent := if y.st.tier = scanTier then y.st.recent else true } })
+                                             recent := if y.st.tier = scanTier then y.st.recent else true },
+                             inval := y.inval || cacheInvalidatedBy.contains .recordFile })
       with ⟨r, h⟩ | ⟨r, h⟩ | ⟨r, h⟩
     · rw [h]; exact List.mem_cons_of_mem _ (List.mem_singleton.mpr rfl)
     · rw [h]; simp
@@ -143,9 +144,9 @@ theorem copyHotCold_clean (n : Nat) (x : Exec) (h : AllOk x.orc) (hh : x.st.hot 
   rw [he]
   simp only [hh, Bool.not_true, Bool.false_eq_true, if_false]
   generalize hx1 : ({ st := { hot := x.st.hot, cold := x.st.cold, part := some 0, tier := x.st.tier, pend := x.st.pend, recent := x.st.recent },
-                      orc := r, logged := x.logged } : Exec) = x1
+                      orc := r, logged := x.logged, inval := x.inval } : Exec) = x1
   have hx1' : ({ st := { hot := true, cold := x.st.cold, part := some 0, tier := x.st.tier, pend := x.st.pend, recent := x.st.recent },
-                      orc := r, logged := x.logged } : Exec) = x1 := by rw [← hx1, hh]
+                      orc := r, logged := x.logged, inval := x.inval } : Exec) = x1 := by rw [← hx1, hh]
   have habs1 : absOf x1.st = absOf x.st := by subst hx1; rfl
   have hr1 : AllOk x1.orc := by subst hx1; exact hr
   have hc := copyChunks_clean n 0 x1 hr1
@@ -206,7 +207,7 @@ theorem prim_clean (n : Nat) (a : Act) (x : Exec) (a' : Abs) (h : AllOk x.orc)
     · simp [absPrimOk] at hp
     · simp [absPrimOk] at hp
   | setMeta t =>
-    obtain ⟨r, hr, he⟩ := atomic_clean x (fun y => { y with st := { y.st with tier := t, recent := true } }) h
+    obtain ⟨r, hr, he⟩ := atomic_clean x (fun y => { y with st := { y.st with tier := t, recent := true }, inval := y.inval || cacheInvalidatedBy.contains .updateTier }) h
     simp only [absPrimOk, Option.some.injEq] at hp
     subst hp
     simp only [prim]
@@ -312,7 +313,8 @@ theorem scanOp_clean (s : FileSt) (orc : List Outcome) (h : AllOk orc) :
     rw [if_pos hh, if_pos hh']
     obtain ⟨r, hr, he⟩ := atomic_clean { st := s, orc := orc, logged := false }
       (fun y => { y with st := { y.st with tier := scanTier,
-                                           recent := if y.st.tier = scanTier then y.st.recent else true } }) h
+                                           recent := if y.st.tier = scanTier then y.st.recent else true },
+                             inval := y.inval || cacheInvalidatedBy.contains .recordFile }) h
     rw [he]
     exact ⟨rfl, hr, rfl⟩
   · have hh' : ¬ ((absOf s).hot && !scanSkipsRegistered) = true := hh
